@@ -204,6 +204,12 @@ def build_hrg(case):
         for k, nm in enumerate(rhs_labels):
             gr.new_edge(nm, [nodes[(k + i) % nn] for i in range(ARITY[nm])],
                         is_terminal=(nm in TERMINALS), is_nonterminal=(nm not in TERMINALS), id=f"r{ri}e{k}")
+        # a right-hand side that once carried an edge with another label (added, then removed again -- as after
+        # an edit or a hyperedge replacement): the label stays in the graph's own label table, but it labels no edge
+        for k, nm in enumerate(case.get("stale", {}).get(str(ri), [])):
+            e = gr.new_edge(nm, [nodes[i % nn] for i in range(ARITY[nm])],
+                            is_terminal=(nm in TERMINALS), is_nonterminal=(nm not in TERMINALS), id=f"r{ri}s{k}")
+            gr.remove_edge(e)
         h.new_rule(lhs, gr)
     return h, lab
 
@@ -378,6 +384,13 @@ def run_bounded(ctx: Ctx) -> Report:
         {"fn": "ntg", "start": "Y", "declared": [], "rules": [["S", ["Y"]], ["Y", ["X", "b"]], ["X", ["S", "a"]]]},
         {"fn": "ntg", "start": "X", "declared": ["W"], "rules": [["Y", ["Y"]], ["S", ["Z", "Z", "Z"]]]},
     ]
+    # right-hand sides with a stale label (see build_hrg): "edge X->Y exactly when some rule for X HAS an rhs edge labelled Y"
+    base = list(ntg_cases)
+    for ci, c in enumerate(base):
+        if c["rules"] and ci % (7 if not ctx.thorough else 2) == 0:
+            for nm in ("S", "X", "Y"):
+                if nm in ARITY and nm not in TERMINALS:
+                    ntg_cases.append(dict(c, stale={"0": [nm]}))
     r = ctx.rng("ntg-random")
     n_ntg_rand = 200000 if ctx.thorough else 20000
     for _ in range(n_ntg_rand):
